@@ -267,6 +267,16 @@ func c18GenCommit(t *rapid.T, tree *vTree, c *c18Case) {
 	} else {
 		k = need - 2 + rapid.IntRange(0, 3).Draw(t, "kOff")
 	}
+	// "pseudo-equivocator" mode: few genuine supporters, and about need-k further
+	// authorities that are each listed with two different precommits for existing
+	// off-target blocks of which at most one is correctly signed
+	pseudoMode := len(notOn) >= 2 && rapid.IntRange(0, 3).Draw(t, "pseudoMode") == 0
+	if pseudoMode {
+		k = rapid.SampledFrom([]int{0, 0, 1, 1, 1, 2, 3}).Draw(t, "kFew")
+		if k > need-2 {
+			k = need - 2
+		}
+	}
 	if k < 0 {
 		k = 0
 	}
@@ -300,6 +310,50 @@ func c18GenCommit(t *rapid.T, tree *vTree, c *c18Case) {
 		b := rapid.SliceOfN(rapid.Byte(), 64, 64).Draw(t, label)
 		copy(s[:], b)
 		return s
+	}
+	// pseudoEquiv lists key twice, for two different existing blocks that are not
+	// the target or a descendant (numbers correct); at most one entry is correctly signed
+	pseudoEquiv := func(key int) {
+		i1 := rapid.IntRange(0, len(notOn)-1).Draw(t, "pseudoBlk1")
+		i2 := (i1 + 1 + rapid.IntRange(0, len(notOn)-2).Draw(t, "pseudoBlk2")) % len(notOn)
+		e1, e2 := good("pseudoEquiv", key, notOn[i1]), good("pseudoEquiv", key, notOn[i2])
+		switch rapid.IntRange(0, 5).Draw(t, "pseudoShape") {
+		case 0, 1: // genuine precommit + a second vote carrying the same signature bytes
+			e2.sig = e1.sig
+		case 2: // genuine precommit + garbage signature
+			e2.sig = garbage("sig")
+		case 3: // genuine precommit + second vote signed for another round / set
+			if rapid.Bool().Draw(t, "otherRound") {
+				e2.sig = sign(key, e2.vote, c.round+1, c.commitSet)
+			} else {
+				e2.sig = sign(key, e2.vote, c.round, c.commitSet+1)
+			}
+		case 4: // neither entry correctly signed
+			e1.sig, e2.sig = garbage("sig"), garbage("sig2")
+		case 5: // both signatures swapped (each is a genuine signature, over the other vote)
+			e1.sig, e2.sig = e2.sig, e1.sig
+		}
+		c.entries = append(c.entries, e1, e2)
+	}
+	if len(notOn) >= 2 {
+		kinds = append(kinds, "pseudoEquiv", "pseudoEquivOutsider")
+	}
+	if pseudoMode {
+		g := need - k + rapid.IntRange(-1, 1).Draw(t, "pseudoCount")
+		for i := 0; i < g; i++ {
+			if len(pool) > 0 {
+				pseudoEquiv(nextMember())
+			} else if i < g-1 || rapid.Bool().Draw(t, "outsiderFill") {
+				// no authority left: outsiders (correctly signed by a non-member)
+				i1 := rapid.IntRange(0, len(notOn)-1).Draw(t, "pseudoBlk1")
+				i2 := (i1 + 1 + rapid.IntRange(0, len(notOn)-2).Draw(t, "pseudoBlk2")) % len(notOn)
+				key := c18NonMemberBase + 10 + i
+				c.entries = append(c.entries, good("pseudoEquivOutsider", key, notOn[i1]), good("pseudoEquivOutsider", key, notOn[i2]))
+			}
+		}
+		if g > 0 {
+			c.adversarial++
+		}
 	}
 	for a := 0; a < na; a++ {
 		kind := rapid.SampledFrom(kinds).Draw(t, "kind")
@@ -382,6 +436,13 @@ func c18GenCommit(t *rapid.T, tree *vTree, c *c18Case) {
 		case "formerTwice": // a former authority with two different correctly signed votes
 			key := pick(c.former, "former")
 			c.entries = append(c.entries, good(kind, key, pick(subT, "blk")), good(kind, key, rapid.IntRange(0, tree.size()-1).Draw(t, "blk2")))
+		case "pseudoEquiv":
+			pseudoEquiv(nextMember())
+		case "pseudoEquivOutsider": // a non-member listed with two different off-target votes, both signed by itself
+			key := c18NonMemberBase + rapid.IntRange(0, 2).Draw(t, "outsider")
+			i1 := rapid.IntRange(0, len(notOn)-1).Draw(t, "pseudoBlk1")
+			i2 := (i1 + 1 + rapid.IntRange(0, len(notOn)-2).Draw(t, "pseudoBlk2")) % len(notOn)
+			c.entries = append(c.entries, good(kind, key, notOn[i1]), good(kind, key, notOn[i2]))
 		case "nonAuth1":
 			key := c18NonMemberBase + rapid.IntRange(0, 2).Draw(t, "outsider")
 			c.entries = append(c.entries, good(kind, key, pick(subT, "blk")))
@@ -517,6 +578,24 @@ func TestC18Regressions(t *testing.T) {
 			add(c, "ok", 0, tree.vote(1), 2)
 			add(c, "ok", 1, tree.vote(1), 2)
 			c.entries = append(c.entries, c18Entry{"twiceBadSig", 2, tree.vote(1), [64]byte{1}}, c18Entry{"twiceBadSig", 2, tree.vote(1), [64]byte{2}})
+		}),
+		// forged commit for the fork block Y3 = b6 (X chain b1<-b2<-b3, Y chain b4<-b5<-b6), n=4: the Byzantine
+		// authority 3 precommits Y3; authorities 0 and 1 are listed with their genuine precommit for X3 and a
+		// second "precommit" for X2 that re-uses the same signature bytes (does not verify): |S| = 1 of 4
+		"forged-equivocations-off-target": mk(4, []int{-1, 0, 1, 2, 0, 4, 5}, 6, func(c *c18Case, tree *vTree) {
+			add(c, "ok", 3, tree.vote(6), 2)
+			for _, k := range []int{0, 1} {
+				add(c, "pseudoEquiv", k, tree.vote(3), 2)
+				c.entries = append(c.entries, c18Entry{"pseudoEquiv", k, tree.vote(2), c.entries[len(c.entries)-1].sig})
+			}
+		}),
+		// the same with two unsigned entries per authority
+		"forged-equivocations-unsigned": mk(4, []int{-1, 0, 1, 2, 0, 4, 5}, 6, func(c *c18Case, tree *vTree) {
+			add(c, "ok", 3, tree.vote(6), 2)
+			for _, k := range []int{0, 1} {
+				c.entries = append(c.entries, c18Entry{"pseudoEquiv", k, tree.vote(3), [64]byte{byte(k + 1)}},
+					c18Entry{"pseudoEquiv", k, tree.vote(2), [64]byte{byte(k + 7)}})
+			}
 		}),
 		// honest supermajority (3 of 3): acceptance is measured, not required
 		"honest-three-of-three": mk(3, chain2, 1, func(c *c18Case, tree *vTree) {
